@@ -467,6 +467,10 @@ impl Expression for ExpressionAssignUndefined {
             match left_result {
                 Err(err) => Err(err),
                 Ok(left_value) => {
+                    // "?=" may create the location, it may not write to a read-only one (system variables).
+                    if left_value.is_readonly() {
+                        return Err(format!("Can't set read-only {left_value}"));
+                    }
                     if !Arc::ptr_eq(&left_value.arc, &right_result.arc) {
                         // (same value on both sides: nothing to copy, locking both would deadlock)
                         right_result
